@@ -184,6 +184,9 @@ type run struct {
 	udpc    *net.UDPConn // udp (receive leg only): the harness's plain peer socket
 	bp      *backPressure // tcpb: sender behind a peer that does not read for a while
 	lis     bool            // listener leg: blocks are Interests, frames are what reaches the forwarding thread
+	appo    bool            // application face that opens (and re-opens) its own connection
+	hold    chan struct{}   // appo: the next callback waits for this channel
+	inCb    chan struct{}   // appo: the held callback has started
 	ws      *websocket.Conn // listener leg, WebSocket: the client's end
 	closeL  func()          // listener leg: stop the listener
 	ln      net.Listener  // tcpr: the peer's listener (the permanent face dials it again after a failure)
@@ -442,6 +445,127 @@ func (r *run) finishListener() string {
 		}
 	}
 	r.closeL()
+	r.mu.Lock()
+	defer r.mu.Unlock()
+	return "nil f=" + r.take()
+}
+
+// ---------------------------------------------------------------- application face life cycle
+//
+// new appo            a StreamFace (std/engine/face) that Open()s its own connection to a Unix socket of
+//                     the harness; `rd` writes the stream, the packets handed to the engine are
+//                     reported at eof
+// reopen <t> <n> <s>  the block is written; while the engine's callback for it is still running the
+//                     application Close()s the face and Open()s it again as soon as Open accepts; the
+//                     stream continues on the new connection
+
+func startAppOpen() *run {
+	r := &run{kind: "appo", done: make(chan string, 1), offered: -1, isSock: true, appo: true}
+	sockSeq++
+	path := fmt.Sprintf("@verif-c11-appo-%d-%d", os.Getpid(), sockSeq)
+	ln, err := net.Listen("unix", path)
+	if err != nil {
+		return nil
+	}
+	r.inCb = make(chan struct{}, 1)
+	f := appface.NewStreamFace("unix", path, true)
+	f.SetCallback(func(rd enc.ParseReader) error {
+		b := rd.Range(0, rd.Length()).Join()
+		r.mu.Lock()
+		r.frames = append(r.frames, strconv.Itoa(len(b))+":"+strconv.FormatUint(fnv64(b), 16))
+		r.nframes++
+		hold := r.hold
+		r.hold = nil
+		r.mu.Unlock()
+		if hold != nil {
+			r.inCb <- struct{}{}
+			<-hold
+		}
+		return nil
+	}, func(err error) error { return err })
+	if err := f.Open(); err != nil {
+		ln.Close()
+		return nil
+	}
+	ln.(*net.UnixListener).SetDeadline(time.Now().Add(watchdog))
+	c, err := ln.Accept()
+	if err != nil {
+		ln.Close()
+		return nil
+	}
+	r.sock, r.ln, r.face = c, ln, f
+	return r
+}
+
+func (r *run) reopen(b []byte) string {
+	if r.closed {
+		return "dead " + r.result
+	}
+	if len(r.pending) != 0 {
+		return "skip"
+	}
+	// everything written so far has reached the engine before the scene starts
+	complete := r.full
+	for _, e := range r.ends {
+		if e <= r.written {
+			complete++
+		}
+	}
+	for i := 0; i < 15000 && r.frameCount() < complete; i++ {
+		time.Sleep(time.Millisecond)
+	}
+	r.full, r.ends, r.defined, r.written = complete+1, nil, 0, 0
+	hold := make(chan struct{})
+	r.mu.Lock()
+	r.hold = hold
+	r.mu.Unlock()
+	r.sock.SetWriteDeadline(time.Now().Add(watchdog))
+	if _, err := r.sock.Write(b); err != nil {
+		close(hold)
+		r.closed = true
+		return "hang k=0 f=- write: " + err.Error()
+	}
+	select {
+	case <-r.inCb:
+	case <-time.After(watchdog):
+		close(hold)
+		r.closed = true
+		return "hang k=0 f=- the block did not reach the engine"
+	}
+	// the engine's callback is running: the application closes the face and wants it back at once
+	r.face.Close()
+	err := r.face.Open()
+	close(hold)
+	for i := 0; err != nil && i < 5000; i++ {
+		time.Sleep(time.Millisecond)
+		err = r.face.Open()
+	}
+	if err != nil {
+		r.closed = true
+		return "hang k=0 f=- the face cannot be opened again: " + err.Error()
+	}
+	r.ln.(*net.UnixListener).SetDeadline(time.Now().Add(watchdog))
+	c, aerr := r.ln.Accept()
+	if aerr != nil {
+		r.closed = true
+		return "hang k=0 f=- no second connection"
+	}
+	r.sock.Close()
+	r.sock = c
+	return "ok"
+}
+
+func (r *run) finishAppOpen() string {
+	r.sock.Close()
+	for n, quiet := r.frameCount(), 0; quiet < 4; {
+		time.Sleep(25 * time.Millisecond)
+		if m := r.frameCount(); m != n {
+			n, quiet = m, 0
+		} else {
+			quiet++
+		}
+	}
+	r.ln.Close()
 	r.mu.Lock()
 	defer r.mu.Unlock()
 	return "nil f=" + r.take()
@@ -721,6 +845,10 @@ func (r *run) sockFinish() string {
 		return "dead " + r.result
 	}
 	r.closed = true
+	if r.appo {
+		r.result = r.finishAppOpen()
+		return r.result
+	}
 	if r.lis {
 		r.result = r.finishListener()
 		return r.result
@@ -867,6 +995,8 @@ func exec(op string) string {
 			cur = startSock(f[1], 1<<30, common.Atoi(f[2]))
 		} else if f[1] == "appsend" {
 			cur = startAppSend()
+		} else if f[1] == "appo" {
+			cur = startAppOpen()
 		} else if f[1] == "lis" {
 			if len(f) != 4 {
 				return "bad-op"
@@ -910,6 +1040,11 @@ func exec(op string) string {
 		cur.defined += len(b)
 		cur.ends = append(cur.ends, cur.defined)
 		return "ok"
+	case "reopen":
+		if cur == nil || !cur.appo || len(f) != 4 {
+			return "skip"
+		}
+		return cur.reopen(Block(common.Atou(f[1]), common.Atoi(f[2]), common.Atoi(f[3])))
 	case "pause":
 		if cur == nil || !cur.lis || len(f) != 2 {
 			return "skip"
@@ -1162,6 +1297,10 @@ func gen(g *common.Gen) {
 				stall = 2500
 			}
 			genBackPressure(g, r, stall)
+			continue
+		}
+		if i%8 == 2 && (i/8)%16 == 3 {
+			genAppOpen(g, r)
 			continue
 		}
 		if i%8 == 2 && ((i/8)%16 == 9 || (i/8)%16 == 13) {
@@ -1500,6 +1639,30 @@ func genListener(g *common.Gen, r *common.Rand, tcp bool, old bool) {
 	}
 	if tcp {
 		g.Op("rd %d", 1<<20)
+	}
+	g.Op("eof")
+}
+
+// genAppOpen: an application face that dials its own connection; between stretches of the stream the
+// application closes the face from under a running callback and opens it again at once.
+func genAppOpen(g *common.Gen, r *common.Rand) {
+	g.Op("new appo")
+	g.Stat("hist-appo")
+	for k := r.Range(2, 4); k > 0; k-- {
+		for j := r.Range(1, 6); j > 0; j-- {
+			typ, n, seed := drawBlock(r, r.Chance(1, 2))
+			g.Op("blk %d %d %d", typ, n, seed)
+			g.Stat("blk")
+			for c := r.Range(0, 2); c > 0; c-- {
+				g.Op("rd %d", common.Pick(r, []int{1, 2, 5, 100, 700, 5000}))
+			}
+		}
+		g.Op("rd %d", 1<<20)
+		if k > 1 {
+			typ, n, seed := drawBlock(r, true)
+			g.Op("reopen %d %d %d", typ, n, seed)
+			g.Stat("reopen")
+		}
 	}
 	g.Op("eof")
 }
